@@ -744,27 +744,37 @@ def context_sample(run, recs, root, n_list):
     xo = C.use_repo()
     out = []
     os.chdir(root)
-    for tname, mk in (("cpu_serial", lambda: xo.ContextCpu()), ("cpu_openmp", lambda: xo.ContextCpu(omp_num_threads=2))):
-        ctx = mk()
+    # serial and OpenMP contexts (two and ONE thread: an OpenMP context whatever the thread count), each building twice with
+    # kernel calls in between and the builds of the contexts interleaved: what a build produces depends neither on what was
+    # built or called before in the context nor on the other contexts of the process
+    ctxs = [("cpu_serial", xo.ContextCpu()), ("cpu_openmp", xo.ContextCpu(omp_num_threads=2)), ("cpu_openmp", xo.ContextCpu(omp_num_threads=1))]
+    half = (len(recs) + 1) // 2
+    for rnd, ci in [(r, c) for r in (0, 1) for c in range(len(ctxs))]:
+        tname, ctx = ctxs[ci]
+        part = list(enumerate(recs))[:half] if rnd == 0 else list(enumerate(recs))[half:]
+        if len(recs) == 1:          # (replay of one kernel: the same kernel in both builds)
+            part = list(enumerate(recs))
+        if not part:
+            continue
         ctx._compile_kernels_info = False
-        texts, descs, meta = [MACROS], {}, []
-        for k, rec in enumerate(recs):
+        texts, descs, meta = [MACROS], {}, {}
+        for k, rec in part:
             text, sid, folder = render(rec, f"s{k}", fixed=True)
             texts.append(text)
-            meta.append({v: a for a, v in sid.items()})
+            meta[k] = {v: a for a, v in sid.items()}
             descs[f"s{k}"] = xo.Kernel(args=[xo.Arg(xo.Int32, name="n"), xo.Arg(xo.Int32, pointer=True, name="xlog")], n_threads="n")
         import pathlib
-        path = pathlib.Path(root) / "inc_fa_fb_fc" / f"xv_sample_{tname}.c"
+        path = pathlib.Path(root) / "inc_fa_fb_fc" / f"xv_sample_{tname}_{ci}_{rnd}.c"
         path.write_text("\n".join(texts) + "\n")
         try:
             ctx.add_kernels(sources=[path], kernels=descs, extra_compile_args=("-O0", "-w"), extra_link_args=("-O0",))
         except Exception as ex:      # noqa
-            run.report(f"context-build:{tname}", f"add_kernels on {ctx} failed for a translation unit of {len(recs)} well-formed "
-                       f"kernels: {type(ex).__name__}: {str(ex)[:300]}", dict(kind="context", target=tname, srcs=[r["src"] for r in recs]))
+            run.report(f"context-build:{tname}", f"add_kernels on {ctx} (build {rnd + 1}) failed for a translation unit of {len(part)} well-formed "
+                       f"kernels: {type(ex).__name__}: {str(ex)[:300]}", dict(kind="context", target=tname, srcs=[r["src"] for _, r in part]))
             continue
         if tname == "cpu_openmp" and not ctx.openmp_enabled:
             raise C.MachineryError("OpenMP context not enabled")
-        for k, rec in enumerate(recs):
+        for k, rec in part:
             cfg = []
             for n in n_list:
                 log = np.zeros(XW * MAXS, dtype=np.int32)
@@ -785,7 +795,7 @@ def context_sample(run, recs, root, n_list):
                 cfg.append([n, 0, sorted(rr)])
             q = dict(kern=[], mem=[], restr=[], fun=[])        # qualifier words are judged on the per-kernel path
             out.append(dict(src=rec["src"], t=tname, built=1, q=q, cfg=cfg, conform=None,
-                            info=dict(text="(whole TU through ctx.add_kernels on " + str(ctx) + ")", specialised=None, error="")))
+                            info=dict(text=f"(whole TU through ctx.add_kernels on {ctx}, omp_num_threads={ctx.omp_num_threads}, build {rnd + 1} of that context)", specialised=None, error="")))
     return out
 
 
